@@ -413,7 +413,9 @@ def run_check(prop, tier, seed):
     # ---- required probes
     missing = [p for p in cfg.get("probes", []) if probes.get(p, 0) == 0]
     wall = time.time() - t0
-    distinct = kmv_estimate(sig_vals)
+    # the sketch is an estimate (about 1.5 % standard error at k = 4096): it cannot exceed the number of
+    # executions that produced a signature
+    distinct = min(kmv_estimate(sig_vals), tot["executions"])
     states = kmv_estimate(state_vals)
     evidence = {
         "property_id": prop,
